@@ -22,6 +22,16 @@ NCPU = os.cpu_count() or 4
 T0 = time.time()
 
 
+def _excepthook(t, v, tb):
+    import traceback
+    traceback.print_exception(t, v, tb)
+    print("BROKEN-CHECK: internal error in the check machinery (not a verdict)", flush=True)
+    os._exit(2)
+
+
+sys.excepthook = _excepthook
+
+
 def seed():
     try:
         return int(os.environ.get("VERIF_SEED", "1"))
@@ -392,11 +402,14 @@ def broken(msg):
 
 
 def load_findings():
-    p = os.path.join(V, "known_findings.json")
-    if not os.path.exists(p):
-        return []
-    with open(p) as f:
-        return json.load(f).get("findings", [])
+    """known findings live in /verif/findings/<ID>.json: {"findings":[{property,id,status,what,classes,probe,commit?}]}"""
+    out = []
+    d = os.path.join(V, "findings")
+    for fn in sorted(os.listdir(d)) if os.path.isdir(d) else []:
+        if fn.endswith(".json"):
+            with open(os.path.join(d, fn)) as f:
+                out += json.load(f).get("findings", [])
+    return out
 
 
 def h(s):
